@@ -302,3 +302,7 @@ def generate(rng, tier: str, boost: int):
                     for c1 in range(1, nn + 4):
                         for path in ("copy", "buffered"):
                             yield {"spec": spec, "path": path, "n": nn, "terminated": True, "cuts": [c1, 1], "hint": 4}
+
+
+def after_batch() -> None:
+    _aux.clear()
